@@ -5,7 +5,8 @@ from rustlex import lex, balanced, find_seq, LexError
 EDGE = ["Generic", "TemplateParameterDefinition", "TemplateDeclaration", "TemplateArgument", "BaseMember", "Field", "InnerType",
         "InnerVar", "Method", "Constructor", "Destructor", "FunctionReturn", "FunctionParameter", "VarType", "TypeReference"]
 FILES = {"vtable": "has_vtable.rs", "sizedness": "sizedness.rs", "destructor": "has_destructor.rs", "float": "has_float.rs",
-         "tparam_array": "has_type_param_in_array.rs", "derive": "derive.rs:consider_edge_default"}
+         "tparam_array": "has_type_param_in_array.rs", "derive": "derive.rs:consider_edge_default",
+         "used_tparams": "template_params.rs"}
 
 
 class Shape(Exception):
